@@ -14,15 +14,15 @@ func init() {
 }
 
 type c20in struct {
-	font       int
-	prop       bool
-	spacing    int
-	h, v       int
-	wrap       bool
-	cx, cy     int
-	dx, dy     int
-	str        []byte
-	W, H       int
+	font    int
+	prop    bool
+	spacing int
+	h, v    int
+	wrap    bool
+	cx, cy  int
+	dx, dy  int
+	str     []byte
+	W, H    int
 }
 
 var c20hist = map[string]map[string]int{}
@@ -371,7 +371,7 @@ func genC20seq(thorough bool, rng *Rng) {
 				c20seq(W, H, []c20op{c20oWrap(false), c20oFont(f, p), c20oTsz(sz[0], sz[1]), c20oSpc(2), c20oSw(str),
 					c20oFont(f2, p), c20oSw(str), c20oCur(0, 0), c20oTxt(str), c20oFont(f, p2), c20oSw(str), c20oClr(), c20oCur(9, 7), c20oTxt(str)})
 				c20seq(W, H, []c20op{c20oFont(f, p), c20oTsz(sz[0], sz[1]), c20oSpc(0), c20oSw(str), c20oWrap(false), c20oSpc(3),
-					c20oSw(other), c20oSw(str), c20oCur(5, 5), c20oTxt(str), c20oClr(), c20oSpc(1), c20oCur(5, 5), c20oTxt(other), c20oCur(2, 30 - 8*minInt(sz[1], 3)), c20oTxt(str)})
+					c20oSw(other), c20oSw(str), c20oCur(5, 5), c20oTxt(str), c20oClr(), c20oSpc(1), c20oCur(5, 5), c20oTxt(other), c20oCur(2, 30-8*minInt(sz[1], 3)), c20oTxt(str)})
 			}
 		}
 	}
@@ -380,10 +380,10 @@ func genC20seq(thorough bool, rng *Rng) {
 	//     setting B; A -> B is a mode flip, a font change, a size change or a spacing change; characters
 	//     whose proportional / fixed / per-font widths differ most (i l 1 . ' W M m space, an unknown byte)
 	type setting struct {
-		f      int
-		p      bool
-		h, v   int
-		sp     int
+		f    int
+		p    bool
+		h, v int
+		sp   int
 	}
 	chars := []byte{'i', 'l', '1', '.', '\'', 'W', 'M', 'm', ' ', 200}
 	if !thorough {
